@@ -180,6 +180,8 @@ static int parse_cb(cfg_t *cfg, cfg_opt_t *opt, const char *value, void *result)
 		*(cfg_bool_t *)result = (cfg_bool_t)(strlen(value) & 1);
 		break;
 	case CFGT_STR:
+		if (!strcmp(value, "noresult"))
+			return 0; // a callback that approves but hands back nothing: there is nothing to store
 		g_strkeep.push_back(string("<") + value + ">");
 		*(const char **)result = g_strkeep.back().c_str();
 		break;
